@@ -1459,7 +1459,7 @@ int main(int argc, char** argv) {
   uint64_t e = 0;
   if (mode == "mix" || mode == "mixinherit") {
     g_inherit_ok = mode == "mixinherit";
-    uint64_t n = g_inherit_ok ? vf::budget(25, 1200) : vf::budget(60, 3000);
+    uint64_t n = g_inherit_ok ? vf::budget(25, 300) : vf::budget(60, 800);
     for (uint64_t i = 0; i < n && !vf::failed(); ++i, ++e)
       if (want(e)) run_mix_episode(a.seed, e);
   } else if (mode == "futex") {
@@ -1477,7 +1477,7 @@ int main(int argc, char** argv) {
     if (g_def.a) vf::note("defect a present: storms draw no non-matching waits");
     if (g_def.b) vf::note("defect b present: storms never call wake_all while waiters can arrive");
     if (g_def.c) vf::note("defect c present: storm waits get a frame of their own kept alive until quiescence, and carry no on_suspend callback");
-    uint64_t n_solo = vf::budget(40, 2500), n_hand = vf::budget(6, 300), n_storm = vf::budget(40, 2500);
+    uint64_t n_solo = vf::budget(40, 1000), n_hand = vf::budget(6, 100), n_storm = vf::budget(40, 800);
     // hand-off episodes re-wait right after a wake_all / rebuild the awaitable in place: they would only
     // re-report defects b / c
     if (g_def.b || g_def.c) n_hand = 0;
